@@ -250,9 +250,9 @@ def explore(ctx, drv, model, cases, search=False):
         op = cases[i].split("\t")[0]
         has_inter = False
         if mres == "R:UB" or 14 in flags:
-            # the model says the C++ reads an Infty object as an Integer (undefined behaviour: any outcome of the
-            # library is possible), or that Interval n Integers enumerates more than ENUM_LIMIT elements
-            # (the library may or may not finish within the driver's time limit): nothing is compared
+            # the model says that Interval n Integers enumerates more than ENUM_LIMIT elements (the library may or
+            # may not finish within the driver's time limit), or it reached a branch that is unreachable for
+            # numbers of the fragment: nothing is compared
             ctx.cov["undefined_behaviour_not_compared"] = ctx.cov.get("undefined_behaviour_not_compared", 0) + 1
             continue
         key = (op, f[0])
@@ -311,7 +311,8 @@ def run(ctx):
     ctx.assumptions += [
         "points are germs (a rational, or the rational / irrational numbers just above / below a rational): every real number has the same memberships as one of them in every set of the fragment (coq/C27/SetSpec.v, not proved against Coq's R)",
         "recursion depth fuel 200 in the model = stack exhaustion in the library (driver children run with a 1 MiB stack so that unbounded recursion is a prompt SIGSEGV); HANG and SIGSEGV are both compared as 'does not return'",
-        "Interval n Naturals/Naturals0 with an infinite start reads an Infty through down_cast<Integer> (undefined behaviour): not compared",
+        "Interval n Integers is followed by the model up to ENUM_LIMIT = 100000 enumerated elements; longer enumerations are not compared",
+        "the theorems assume the model returned a set without raising a defect flag (DF_COLLISION / DF_UNSORTED: the container comparator identified two different keys or a container was not sorted -- never observed; DF_RECURSION; DF_BOUNDARY_UNION_SHARED); cases_inside_guards counts the cases where no flag was raised",
         "ordered containers: the model uses the shared RCPBasicKeyLess model (Expr/Cmp.v, validated by C01/C02)",
     ]
 
